@@ -469,4 +469,48 @@ pub fn random_ops(rng: &mut Rng, len: usize, max_vars: usize) -> Vec<Op> {
     ops
 }
 
+/// Directed scenario: an object with `k` fields (every `ptr_every`-th field a pointer to a small object) is
+/// created in an (almost) empty environment, `n_left` other variables (integers and small objects) are created
+/// to its right, the object is moved behind them - duplicated first if `share` - and loaded there; the second
+/// copy, if any, is moved to the end and loaded as well (release path). So the object is consumed in an
+/// environment of a different shape than the one it was created in, with its block pointer at position
+/// `n_left` (register or spill slot), on both the share and the release path.
+pub fn directed_ops(n_left: usize, k: usize, share: bool, ptr_every: usize) -> Vec<Op> {
+    let mut ops = vec![];
+    // fields
+    for j in 0..k {
+        ops.push(Op::Lit);
+        if ptr_every > 0 && j % ptr_every == 0 {
+            ops.push(Op::Alloc(1)); // a one-field object wrapping the literal: a pointer field
+        }
+    }
+    ops.push(Op::Alloc(k)); // environment: [O]
+    for j in 0..n_left {
+        ops.push(Op::Lit);
+        if ptr_every > 0 && j % ptr_every == 1 {
+            ops.push(Op::Alloc(1));
+        }
+    }
+    // environment: [O, f1 .. fn]  ->  [f1 .. fn, O (, O)]
+    let mut sel: Vec<usize> = (1..=n_left).collect();
+    sel.push(0);
+    if share {
+        sel.push(0);
+    }
+    ops.push(Op::Subst(sel));
+    ops.push(Op::Load); // loads the last copy: environment [f1 .. fn, (O,) x1 .. xk]
+    if share {
+        // bring the remaining copy to the end and load it too
+        let total = n_left + 1 + k;
+        let mut sel: Vec<usize> = (0..n_left).collect();
+        sel.extend(n_left + 1..total);
+        sel.push(n_left);
+        ops.push(Op::Subst(sel));
+        ops.push(Op::Load);
+    }
+    // finally drop everything
+    ops.push(Op::Subst(vec![]));
+    ops
+}
+
 pub type _Unused = BTreeMap<u64, u64>;
